@@ -538,9 +538,10 @@ PROPS = {
                        "macro-generated generic code, for the record types CBMC can handle: A and AAAA complete over all values; DS, "
                        "DNSKEY, TLSA, SSHFP, HINFO with small symbolic octet fields; MX and SRV with one fixed name (canonical "
                        "lower-casing). Verus unit rtypebitmap (rdata/dnssec.rs, real text): the type bitmap shared by NSEC, NSEC3 "
-                       "and CSYNC data -- RtypeBitmap::from_octets accepts exactly the RFC 4034 section 4.1.2 window sequences "
+                       "and CSYNC data -- RtypeBitmap::from_octets accepts exactly the sequences of RFC 4034 section 4.1.2 windows "
                        "(each window 1..=32 bitmap octets, wholly inside the data; so every bitmap a builder can produce parses "
-                       "back), and on accepted data contains / read_window / split_rtype and the iterator RtypeBitmapIter::{new, "
+                       "back; that window numbers ascend, which the RFC also demands, is not checked by the code -- an audit "
+                       "observation, see DESIGN.md), and on accepted data contains / read_window / split_rtype and the iterator RtypeBitmapIter::{new, "
                        "advance, next} are total: the unwrap() cannot fail, no index leaves the data, advance terminates (for "
                        "bitmaps of every length).",
         "assumptions": [
